@@ -435,17 +435,24 @@ class Walk:
         elif k == 'stm_user':
             if cur in (BK.USR, BK.SYS, BK.HYP):
                 return 'skip'
-            rn = 8 + n % 5 if cur != BK.FIQ else n % 8
-            lst = op['list'] & ~(1 << rn) or 1
+            # every base register - the banked SP / LR of the current mode, R8-R12, R0-R7 - in or out of its own list (no write-back exists for this
+            # form, so a listed base is stored like any other register: its USER-bank value), all four addressing modes
+            rn = [13, 14, 8 + n % 5, n % 8, 13, 14][op['m'] % 6]
+            lst = op['list'] & 0x7FFF or 1
+            if op['imm'] & 1:
+                lst &= ~(1 << rn)
+            lst = lst or 2
+            p_, u_ = (op['imm'] >> 1) & 1, (op['imm'] >> 2) & 1
+            cnt = bin(lst).count('1')
             pc_ = r.pc_store_value()
             base = G.DATA + 0x800 if not (G.DATA + 0x700 <= pc_ < G.DATA + 0x900) else G.DATA + 0xE00
             r.set(rn, base)
             m.set(rn, cur, base)
             if self.thumb:
                 return 'skip'
-            ok = self.exec_word(A.ldstm(0, rn, lst, p=0, u=1, w=0, s=1))
+            ok = self.exec_word(A.ldstm(0, rn, lst, p=p_, u=u_, w=0, s=1))
             if ok:
-                a = base
+                a = (base + 4 * p_) if u_ else (base - 4 * cnt + 4 * (1 - p_))
                 for i in range(15):
                     if lst >> i & 1:
                         got = int.from_bytes(M.peek(self.arm, a, 4), 'little')
@@ -456,15 +463,18 @@ class Walk:
         elif k == 'ldm_user':
             if cur in (BK.USR, BK.SYS, BK.HYP) or self.thumb:
                 return 'skip'
-            rn = 8 + n % 5 if cur != BK.FIQ else n % 8
-            lst = op['list'] & ~(1 << rn) & 0x7FFF or 1
-            if lst >> rn & 1:
-                return 'skip'
-            base = self.data_base()
+            rn = [13, 14, 8 + n % 5, n % 8, 13, 14][op['m'] % 6]
+            lst = op['list'] & 0x7FFF or 1
+            if op['imm'] & 1:
+                lst &= ~(1 << rn)               # (a listed base is loaded like any other register: into the USER bank)
+            lst = lst or 2
+            p_, u_ = (op['imm'] >> 1) & 1, (op['imm'] >> 2) & 1
+            cnt = bin(lst).count('1')
+            base = self.data_base() + 0x40
             r.set(rn, base)
             m.set(rn, cur, base)
-            ok = self.exec_word(A.ldstm(1, rn, lst, p=0, u=1, w=0, s=1))
-            a = base
+            ok = self.exec_word(A.ldstm(1, rn, lst, p=p_, u=u_, w=0, s=1))
+            a = (base + 4 * p_) if u_ else (base - 4 * cnt + 4 * (1 - p_))
             for i in range(15):
                 if lst >> i & 1:
                     m.set(i, BK.USR, int.from_bytes(M.peek(self.arm, a, 4), 'little'))
